@@ -38,6 +38,9 @@ def run_seeded(names, tier, verbose):
         if not os.path.isdir(d) or (names and not any(n in name for n in names)):
             continue
         meta = json.load(open(os.path.join(d, "meta.json")))
+        if meta.get("neutralised_by_fix"):
+            print(f"seeded {name}: neutralised by a later fix ({str(meta['neutralised_by_fix'])[:60]}...)")
+            continue
         props = [meta["property"]] + [x for x in meta.get("also_run", [])]
         manifest = json.load(open(os.path.join(VERIF, "MANIFEST.json")))
         claimed = {c["property_id"] for c in manifest["checks"]}
